@@ -78,6 +78,17 @@ Theorem C01_put_any_crashes_get : forall nt w r key dw c xs l,
   snd (put nt w key) = true /\ get_finds nt2 r key = true.
 Proof. exact put_crash_get. Qed.
 
+(* in a strongly connected network (C13): whoever knows one responding node writes successfully, and whoever knows one
+   responding node reads the value afterwards - provided some responding node other than the writer and the reader
+   exists to hold it. No first node, no bound on the length of chains *)
+Theorem C01_put_then_get_strongly_connected : forall nt w r key dw dr c,
+  strongly_connected nt ->
+  mem dw (n_main (get nt w)) = true -> responds nt dw = true ->
+  mem dr (n_main (get nt r)) = true -> responds nt dr = true ->
+  responds nt c = true -> c <> w -> c <> r ->
+  snd (put nt w key) = true /\ get_finds (fst (put nt w key)) r key = true.
+Proof. exact put_then_get_strongly_connected. Qed.
+
 (* its hypotheses are met with the first node among the crashed: five nodes joined in a row (each through its
    predecessor), a put on node 1 (which knows the first node only; the first node lists node 3), nodes 0 and 2 crash,
    node 4 reads from node 3 *)
@@ -115,4 +126,5 @@ Print Assumptions C01_nonvacuous.
 Print Assumptions C01_lookup_follows_every_chain.
 Print Assumptions C01_get_finds_along_any_chain.
 Print Assumptions C01_put_any_crashes_get.
+Print Assumptions C01_put_then_get_strongly_connected.
 Print Assumptions C01_any_crashes_nonvacuous.
